@@ -1,14 +1,52 @@
 import Kio.Proofs.Foreign
+import Kio.Proofs.Conforms
 import Kio.Model.Current
 import Kio.Generated.All
 /-!
 # C03 — the decoder accepts every conforming encoding, including forward-compatible ones
-`Spec.encForeign` (Kio/Spec/Foreign.lean) enumerates what a conforming peer may send.
+`Spec.Conforms s w bs` (Kio/Spec/Conforms.lean) is the *relational* statement of what a conforming
+peer may send for the wire values `w`: at **every occurrence of every structure independently** it
+may omit a tagged field whose value equals the default or send it explicitly (explicit null
+included), and add any unknown tagged entries (tags the structure does not declare, strictly
+ascending together with the known ones, payloads below 2^35 bytes).  `accepts_conforming` is the
+property at full strength.  `Spec.encForeign` (Kio/Spec/Foreign.lean) is the executable
+sub-family (one pattern applied uniformly) that the harness uses to *produce* bytes;
+`foreign_is_conforming` shows its outputs are instances of the relation, and
+`Kio.ConformsExample.example_not_uniform` that the relation is strictly larger.
 -/
 namespace Kio.C03
 open Kio
 
-/-- **C03**: for every coherent class, every wire-level value assignment and every presence
+/-- **C03, full strength**: every conforming encoding of every wire-level value assignment of
+    every coherent class decodes to exactly those values — absent tagged fields at their defaults,
+    unknown ones skipped by their size — and the decoder consumes exactly the encoding -/
+theorem accepts_conforming (env : Env) (ht : env.time = TimeCfg.repaired)
+    (hskip : env.skipUnknownTags = true) (hnull : env.nullableTaggedReader = true)
+    (s : Schema) (hwf : s.wf env = true) (w : Value) (hw : s.valueOk env w = true) (bs : Bytes)
+    (h : Spec.Conforms s w bs) (rest : Bytes) :
+    dec env s (bs ++ rest) = .ok (w, rest) := by
+  obtain ⟨hr, _⟩ := Kio.wf_buildable env s hwf
+  unfold dec; rw [hr]
+  exact Kio.Schema.accepts_conforming env ht hskip hnull s hwf w hw bs h rest
+
+/-- the bytes the harness produces with `Spec.encForeign` are conforming encodings -/
+theorem foreign_is_conforming (env : Env) (pat : Spec.ForeignPat) (hpat : pat.ok = true)
+    (s : Schema) (hwf : s.wf env = true)
+    (havoid : Spec.Schema.avoids (pat.unknown.map (·.1)) s = true)
+    (v : Value) (bs : Bytes) (h : Spec.encForeign pat s v = some bs) : Spec.Conforms s v bs :=
+  Kio.Spec.encForeign_conforms env pat hpat s hwf havoid v bs h
+
+/-- the relation is not vacuous and discriminates: a mixed per-occurrence encoding conforms and
+    decodes, is not produced by any single uniform pattern, and descending tags do not conform -/
+theorem conforms_examples :
+    Spec.Conforms Kio.ConformsExample.outer Kio.ConformsExample.value Kio.ConformsExample.exampleBytes
+    ∧ (∀ pat, Spec.encForeign pat Kio.ConformsExample.outer Kio.ConformsExample.value
+          ≠ some Kio.ConformsExample.exampleBytes)
+    ∧ ¬ Spec.Conforms Kio.ConformsExample.emptyClass (.entity []) Kio.ConformsExample.descendingBytes :=
+  ⟨Kio.ConformsExample.example_conforms, Kio.ConformsExample.example_not_uniform,
+   Kio.ConformsExample.descending_not_conforms⟩
+
+/-- **C03 for the executable family**: for every coherent class, every wire-level value assignment and every presence
     pattern (explicit defaults / explicit nulls, unknown tags anywhere in ascending order, at
     every nesting level) decoding succeeds, yields exactly the values on the wire — absent
     tagged fields at their defaults, unknown ones skipped by their size — and consumes exactly
